@@ -25,7 +25,7 @@ The oracle is plain Python on str/list/int: reverse(op_msb0(reverse(operands))) 
 documented msb0 meaning of each method; it never calls bitstring.
 """
 from harness.common import *
-import itertools, struct, ast, inspect, textwrap
+import itertools, struct, ast, inspect, textwrap, sys
 import bitstring.bits, bitstring.bitarray_, bitstring.bitstore
 
 FUNCTIONAL = True
@@ -642,8 +642,19 @@ def _value_obs(s, cls):
             o["oct"] = g(lambda: x.oct)
         if n % 8 == 0:
             o["uintle"], o["intbe"] = g(lambda: x.uintle), g(lambda: x.intbe)
+            # every byte-wise interpretation (round 9: a sign bit fetched through the mode-dependent index accessor)
+            o["intle"], o["uintbe"] = g(lambda: x.intle), g(lambda: x.uintbe)
+            o["intne"], o["uintne"] = g(lambda: x.intne), g(lambda: x.uintne)
+            o["bytes_prop"] = g(lambda: x.bytes.hex())
         if n in (16, 32, 64):
             o["float"] = g(lambda: struct.pack(">d", x.float).hex())
+            o["floatle"] = g(lambda: struct.pack(">d", x.floatle).hex())
+            o["floatne"] = g(lambda: struct.pack(">d", x.floatne).hex())
+        if n == 16:
+            o["bfloat"] = g(lambda: struct.pack(">d", x.bfloat).hex())
+            o["bfloatle"] = g(lambda: struct.pack(">d", x.bfloatle).hex())
+        if n == 1:
+            o["bool"] = g(lambda: x.bool)
     if cls in ("Bits", "ConstBitStream"):
         o["hash"] = g(lambda: hash(x))
     o["count"] = g(lambda: x.count(1))
@@ -836,10 +847,24 @@ def oracle(line, out, extra):
                 by = int(s, 2).to_bytes(n // 8, "big")
                 exp["uintle"] = int.from_bytes(by, "little")
                 exp["intbe"] = int.from_bytes(by, "big", signed=True)
+                exp["intle"] = int.from_bytes(by, "little", signed=True)
+                exp["uintbe"] = int.from_bytes(by, "big")
+                exp["intne"] = int.from_bytes(by, sys.byteorder, signed=True)
+                exp["uintne"] = int.from_bytes(by, sys.byteorder)
+                exp["bytes_prop"] = by.hex()
             if n in (16, 32, 64):
                 by = int(s, 2).to_bytes(n // 8, "big")
                 v = struct.unpack({16: ">e", 32: ">f", 64: ">d"}[n], by)[0]
                 exp["float"] = struct.pack(">d", v).hex()
+                vl = struct.unpack({16: "<e", 32: "<f", 64: "<d"}[n], by)[0]
+                exp["floatle"] = struct.pack(">d", vl).hex()
+                exp["floatne"] = exp["floatle"] if sys.byteorder == "little" else exp["float"]
+            if n == 16:
+                by = int(s, 2).to_bytes(2, "big")
+                exp["bfloat"] = struct.pack(">d", struct.unpack(">f", by + b"\x00\x00")[0]).hex()
+                exp["bfloatle"] = struct.pack(">d", struct.unpack(">f", by[::-1] + b"\x00\x00")[0]).hex()
+            if n == 1:
+                exp["bool"] = s == "1"
         for when in ("before", "during", "after"):
             got = dict(extra[when])
             h = got.pop("hash", None)
@@ -1301,8 +1326,29 @@ def gen_random(rng, tier):
                 yield L(op, _acls(rng), s, rng.randint(1, 9), a, b, rng.choice([None, 2]))
 
 
+def gen_long_ranges(rng, tier):
+    """in-place range operations whose range length sits around the sizes a 'long range' fast path would key on
+    (round 9: a ranged reverse of >= 2048 bits done on stored positions, wrong only under lsb0 and only for a range
+    that is not symmetric about the middle)"""
+    big = tier != "quick"
+    sizes = [1023, 1024, 1025, 2047, 2048, 2049, 4095, 4096, 4097, 8191, 8192, 8193]
+    for w in (sizes if big else rng.sample(sizes, 6) + [2048, 4096]):
+        for _ in range(3 if big else 1):
+            left, right = rng.choice([(0, 5), (3, 0), (1, 8), (8, 17), (13, 2)])
+            n = left + w + right
+            s = rand_bits(rng, n)
+            a, b = left, left + w
+            yield L("reverse", _mcls(rng), s, a, b)
+            yield L("reverse", _mcls(rng), s, a - n if a else None, b - n if right else None)
+            yield L(rng.choice(["rol", "ror"]), _mcls(rng), s, rng.choice([1, 7, 8, 9, w - 1]), a, b)
+            if w % 8 == 0:
+                yield L("byteswap", _mcls(rng), s, rng.choice(["None", "2", "1,2", "4"]), a, b, 1)
+            yield L("getslice", _acls(rng), s, a, b, rng.choice([None, 1, -1, 2]))
+
+
 def gen(rng, tier):
     yield SEP.join(["C12", "tables"])
+    yield from gen_long_ranges(rng, tier)
     yield from gen_slices(rng, tier)
     yield from gen_search(rng, tier)
     yield from gen_bytes(rng, tier)
